@@ -235,6 +235,10 @@ func (w *world) Run(t *rt.Tape, trace bool) *core.Result {
 			choices      [][]bool
 			got          [][]ot.Label
 			sDone, rDone bool
+			// misuse[i]: the receiver calls Receive with a result slice one label too long (an
+			// application slip the implementation answers with an error); the sender sends batch i
+			// all the same; the batch is not judged, those after it are - fail, then carry on
+			misuse []bool
 		}
 		sess := make([]*session, nsess)
 		for k := range sess {
@@ -248,6 +252,11 @@ func (w *world) Run(t *rt.Tape, trace bool) *core.Result {
 			}
 			n := len(ss.batches)
 			ss.wires, ss.choices, ss.got = make([][]ot.Wire, n), make([][]bool, n), make([][]ot.Label, n)
+			ss.misuse = make([]bool, n)
+			if kind == kCO && n > 1 && t.Choose(rt.SGen, 4) == 0 {
+				ss.misuse[t.Choose(rt.SGen, n-1)] = true
+				smp.Scenario += " (one Receive is called with a result slice of the wrong length; later batches are judged)"
+			}
 			for i, n := range ss.batches {
 				ss.wires[i] = make([]ot.Wire, n)
 				if !isROT {
@@ -262,7 +271,42 @@ func (w *world) Run(t *rt.Tape, trace bool) *core.Result {
 			sess[k] = ss
 		}
 		reinit := shared && kind >= kCOT && t.Choose(rt.SGen, 2) == 1
+		// One p2p.Conn case in five (OT objects that are initialised anew by every Init call: CO and
+		// RSA; a shared COT/ROT is bound to its first connection for good): fail, then carry on. The pair first runs a batch over a connection that is reset
+		// at a tape-chosen byte; both ends give it up; then the same OT objects are initialised over a
+		// fresh connection and the batches of the case follow. Only those are judged.
+		prelude := useConn && (kind == kCO || kind == kRSA) && t.Choose(rt.SGen, 5) == 0
+		var preCut uint64
+		var preDir, preN int
+		var preWires []ot.Wire
+		var preChoices []bool
+		if prelude {
+			preCut = uint64(t.Choose(rt.SGen, 1<<uint(2+t.Choose(rt.SGen, 14))))
+			preDir = t.Choose(rt.SGen, 2)
+			preN = drawSize(t, min(maxN, 600))
+			preWires = make([]ot.Wire, preN)
+			if !isROT {
+				for j := range preWires {
+					preWires[j].L0, _ = ot.NewLabel(rH)
+					preWires[j].L1, _ = ot.NewLabel(rH)
+				}
+			}
+			preChoices = drawChoices(t, preN, rH)
+			smp.Scenario += fmt.Sprintf(" (preceded by a batch of %d over a connection reset at byte %d of direction %d, same OT objects)", preN, preCut, preDir)
+			res.Reach = map[string]int{"fail-then-carry-on": 1}
+		}
 		body = func() {
+			var pea, peb *simnet.Endpoint
+			if prelude {
+				pp := pipe
+				f := simnet.Fault{Kind: simnet.FaultReset, Off: preCut}
+				if preDir == 0 {
+					pp.AB.Faults = []simnet.Fault{f}
+				} else {
+					pp.BA.Faults = []simnet.Fault{f}
+				}
+				pea, peb = simnet.Pipe("S0", "R0", pp)
+			}
 			for k, ss := range sess {
 				k, ss := k, ss
 				l := mk()
@@ -272,6 +316,19 @@ func (w *world) Run(t *rt.Tape, trace bool) *core.Result {
 				}
 				rt.GoParty("S", fmt.Sprintf("sender%d", k), func() {
 					o := mkOT(rSk)
+					if prelude && k == 0 {
+						c0 := p2p.NewConn(pea)
+						err := o.InitSender(c0)
+						if err == nil {
+							err = o.Send(preWires)
+						}
+						if err == nil {
+							c0.Close()
+						} else {
+							rt.Reach("fail-then-carry-on.sender-saw-the-failure")
+						}
+						pea.Abort()
+					}
 					if err := o.InitSender(l.s); err != nil {
 						fail("sender-error", "InitSender: "+err.Error())
 						return
@@ -297,6 +354,19 @@ func (w *world) Run(t *rt.Tape, trace bool) *core.Result {
 				})
 				rt.GoParty("R", fmt.Sprintf("receiver%d", k), func() {
 					o := mkOT(rRk)
+					if prelude && k == 0 {
+						c0 := p2p.NewConn(peb)
+						err := o.InitReceiver(c0)
+						if err == nil {
+							err = o.Receive(preChoices, make([]ot.Label, preN))
+						}
+						if err == nil {
+							c0.Close()
+						} else {
+							rt.Reach("fail-then-carry-on.receiver-saw-the-failure")
+						}
+						peb.Abort()
+					}
 					if err := o.InitReceiver(l.r); err != nil {
 						fail("receiver-error", "InitReceiver: "+err.Error())
 						return
@@ -307,6 +377,12 @@ func (w *world) Run(t *rt.Tape, trace bool) *core.Result {
 								fail("receiver-error", fmt.Sprintf("repeated InitReceiver on a shared instance: %v", err))
 								return
 							}
+						}
+						if ss.misuse[i] {
+							if err := o.Receive(ss.choices[i], make([]ot.Label, ss.batches[i]+1)); err != nil {
+								rt.Reach("fail-then-carry-on.receive-refused-a-wrong-result-length")
+							}
+							continue
 						}
 						if err := o.Receive(ss.choices[i], ss.got[i]); err != nil {
 							fail("receiver-error", fmt.Sprintf("session %d: Receive batch %d (n=%d): %v", k, i, ss.batches[i], err))
@@ -328,6 +404,9 @@ func (w *world) Run(t *rt.Tape, trace bool) *core.Result {
 			}
 			for k, ss := range sess {
 				for i := range ss.batches {
+					if ss.misuse[i] {
+						continue
+					}
 					for j := range ss.got[i] {
 						want := ss.wires[i][j].L0
 						if ss.choices[i][j] {
